@@ -242,7 +242,12 @@ theorem loadDiffs_eq_gaps (l : List (K × K)) : loadDiffs l = gaps l := by
   | none =>
     have : l = [] := by simpa using h
     subst this; rfl
-  | some bl => exact loadDiffsFrom_eq_gaps bl.1 l
+  | some bl =>
+    simp only [loadDiffsFrom_eq_gaps bl.1 l]
+    apply List.take_of_length_le
+    rw [gaps_length]
+    simp only [Gen.DistogramOps.loadTurns]
+    omega
 
 /-- `bulkload`'s inserted value lies between the two edges it averages. -/
 theorem bulkMid_between {a b : K} (h : a ≤ b) :
@@ -471,6 +476,27 @@ theorem bumpBounds_cap (h : Hist K) (v : K) : (bumpBounds h v).cap = h.cap := rf
 theorem bumpBounds_diffs (h : Hist K) (v : K) : (bumpBounds h v).diffs = h.diffs := rfl
 theorem bumpBounds_minDiff (h : Hist K) (v : K) : (bumpBounds h v).minDiff = h.minDiff := rfl
 
+/-! ### the tests on the optional gap cache (`Gen.DistogramOps`, from `_update_diffs`, `_trim`, `update`,
+`_search_in_place_index`) are `is not None` / `is None`
+
+`load()` of a histogram with a single bin creates the EMPTY list, which is not `None`: a bare truthiness test
+(`if h.diffs:`) would treat it as "no cache" in `update`/`_trim` (never maintained) while `_search_in_place_index`
+(`is None`) would never compute it, so `min_diff` stays infinite and every interior value is merged in place.  Each of
+these equations is `rfl` for the source as it is and fails for a truthiness test. -/
+
+theorem udCache_eq (d : Option (List K)) : Gen.DistogramOps.udCache d = d.isSome := rfl
+theorem trimCachePick_eq (d : Option (List K)) : Gen.DistogramOps.trimCachePick d = d.isSome := rfl
+theorem trimCacheKeep_eq (d : Option (List K)) : Gen.DistogramOps.trimCacheKeep d = d.isSome := rfl
+theorem appendCache_eq (d : Option (List K)) : Gen.DistogramOps.appendCache d = d.isSome := rfl
+theorem insertCache_eq (d : Option (List K)) : Gen.DistogramOps.insertCache d = d.isSome := rfl
+theorem searchNoCache_eq (d : Option (List K)) : Gen.DistogramOps.searchNoCache d = d.isNone := rfl
+
+/-- `update` appends iff `index == -1` -/
+theorem isAppend_eq (neg : Bool) (idx : Nat) :
+    Gen.DistogramOps.isAppend (if neg then -1 else (idx : Int)) = neg := by
+  -- proved for `index == -1` and for the equivalent `index < 0` / `index <= -1` alike
+  cases neg <;> simp [Gen.DistogramOps.isAppend] <;> omega
+
 theorem inPlaceTry_eq (neg : Bool) (idx len cap : Nat) :
     Gen.DistogramFlow.inPlaceTry (if neg then -1 else (idx : Int)) len cap =
       (!neg && decide (0 < idx) && decide (cap ≤ len)) := by
@@ -489,8 +515,8 @@ theorem afterHit_def (h : Hist K) (neg : Bool) (idx : Nat) (value count : K) : a
       | none => insertTrim h1 neg idx value count
     else insertTrim h neg idx value count := by
   unfold afterHit
-  simp only [inPlaceTry_eq, decide_eq_true_eq]
-  split_ifs <;> rfl
+  rw [inPlaceTry_eq]
+  rfl
 
 /-- a count `<= 0` is rejected; an exact hit (`vi == value`) adds the count to the bin -/
 theorem update_def (h : Hist K) (value count : K) : update h value count =
@@ -548,7 +574,7 @@ theorem updateDiffs_def (h : Hist K) (i : Nat) : updateDiffs h i =
     unfold Gen.DistogramOps.udRight
     exact decide_eq_decide.mpr (by omega)
   unfold updateDiffs
-  rw [e1, e2]
+  rw [e1, e2, udCache_eq]
   cases h.diffs <;> rfl
 
 /-- one turn of `_trim` reads bin `i`, pops bin `i + 1`, stores the merged bin at `i`, pops cache entry `i` and
@@ -566,7 +592,11 @@ theorem trimStep_def (h : Hist K) : trimStep h =
         | some m => .ok { h1 with minDiff := some m }
         | none => .error "ValueError"
       | none => .ok { h with bins := bins }
-    | _, _ => .error "IndexError" := rfl
+    | _, _ => .error "IndexError" := by
+  unfold trimStep
+  simp only [trimCacheKeep_eq, Gen.DistogramOps.trimKeep, Gen.DistogramOps.trimPopBin, Gen.DistogramOps.trimPopDiff,
+    Gen.DistogramOps.trimRefresh]
+  cases h.diffs <;> rfl
 
 /-- an append lowers the cached minimum to the new last gap when that is smaller (`min(h.min_diff, diff)`) -/
 theorem insertBin_def (h : Hist K) (neg : Bool) (idx : Nat) (value count : K) : insertBin h neg idx value count =
@@ -583,7 +613,85 @@ theorem insertBin_def (h : Hist K) (neg : Bool) (idx : Nat) (value count : K) : 
       match h.diffs with
       | some d =>
         updateDiffs { h with bins := h.bins.insertIdx idx (value, count), diffs := some (d.insertIdx idx (0 : K)) } idx
-      | none => .ok { h with bins := h.bins.insertIdx idx (value, count) } := rfl
+      | none => .ok { h with bins := h.bins.insertIdx idx (value, count) } := by
+  unfold insertBin
+  rw [isAppend_eq, appendCache_eq, insertCache_eq]
+  cases neg <;> cases h.diffs <;> rfl
+
+/-- `_compute_diffs` caches `v2 - v1` for adjacent centres: the adjacent gaps -/
+theorem computeGaps_eq_gaps : ∀ (l : List (K × K)), computeGaps l = gaps l
+  | [] => rfl
+  | [_] => rfl
+  | a :: b :: rest => by
+    simp only [computeGaps, gaps, Gen.DistogramOps.computeGap, computeGaps_eq_gaps (b :: rest)]
+
+theorem computeDiffs_def (h : Hist K) : computeDiffs h =
+    match listMin (gaps h.bins) with
+    | some m => .ok { h with diffs := some (gaps h.bins), minDiff := some m }
+    | none => .error "ValueError" := by
+  unfold computeDiffs
+  simp only [computeGaps_eq_gaps]
+  cases listMin (gaps h.bins) <;> rfl
+
+/-- `merge(h1, h2)` hands each bin of `h2` to `update` as (value, count), in that order -/
+theorem merge_def (h : Hist K) (other : List (K × K)) :
+    merge h other = other.foldlM (fun acc b => update acc b.1 b.2) h := rfl
+
+/-- `load`: `min_diff` is `min(diffs)` when there is a gap and infinity otherwise — `listMin` either way -/
+theorem load_def (bins : List (K × K)) (mn mx : Option K) : load bins mn mx =
+    { bins := bins, min := mn, max := mx, diffs := some (loadDiffs bins), minDiff := listMin (loadDiffs bins),
+      cap := Gen.Distogram.binCount } := by
+  unfold load
+  cases hd : loadDiffs bins <;> simp [Gen.DistogramOps.loadHasDiffs, Gen.DistogramOps.listTruthy, Gen.DistogramOps.loadNoDiffs, listMin]
+
+/-- `_trim` without a cache scans `enumerate(h.bins[1:], start=1)` recording `(i - 1, b[0] - h.bins[i - 1][0])` and takes
+the first smallest: the first closest adjacent pair -/
+theorem scan_fold : ∀ (l : List (K × K)) (i : Nat) (m : Nat × K), 1 ≤ i →
+    ((scanPairs i l).foldl (fun m q => if q.2 < m.2 then q else m) m).1 = argminFrom (i - 1) m.1 m.2 (gaps l)
+  | [], _, _, _ => rfl
+  | [_], _, _, _ => rfl
+  | a :: b :: rest, i, m, hi => by
+    have e : ((i : Int) - 1).toNat = i - 1 := by omega
+    have e2 : i + 1 - 1 = i - 1 + 1 := by omega
+    simp only [scanPairs, gaps, List.foldl_cons, argminFrom, Gen.DistogramOps.trimScanIdx, Gen.DistogramOps.trimScanGap, e]
+    split_ifs with hlt
+    · rw [scan_fold (b :: rest) (i + 1) _ (by omega), e2]
+    · rw [scan_fold (b :: rest) (i + 1) _ (by omega), e2]
+
+theorem scanMin_eq (l : List (K × K)) : scanMin (scanPairs 1 l) =
+    match gaps l with
+    | [] => none
+    | g => some (argminFirst g) := by
+  match l with
+  | [] => rfl
+  | [_] => rfl
+  | a :: b :: rest =>
+    have e : ((1 : Int) - 1).toNat = 0 := by omega
+    simp only [scanPairs, gaps, scanMin, argminFirst, Gen.DistogramOps.trimScanIdx, Gen.DistogramOps.trimScanGap,
+      Nat.cast_one, e]
+    rw [scan_fold (b :: rest) 2 _ (by omega)]
+
+/-- `_trim` looks the pair up in the cache iff there is one (`h.diffs is not None`); without a cache it takes the first
+closest adjacent pair -/
+theorem trimIndex_def (h : Hist K) : trimIndex h =
+    match h.diffs with
+    | some d =>
+      match h.minDiff with
+      | some md =>
+        match indexOf md d with
+        | some i => .ok i
+        | none => .error "ValueError"
+      | none => .error "ValueError"
+    | none =>
+      match gaps h.bins with
+      | [] => .error "ValueError"
+      | g => .ok (argminFirst g) := by
+  unfold trimIndex
+  rw [trimCachePick_eq, scanMin_eq]
+  cases h.diffs
+  · simp only [Option.isSome_none, Bool.false_eq_true, if_false]
+    cases gaps h.bins <;> rfl
+  · rfl
 
 /-- `__add__`: the right operand contributes its bounds iff it has a minimum (`operand.min is not None` — not a
 truthiness test: a minimum of exactly zero counts), and the bounds of the sum are the smaller minimum / larger maximum -/
